@@ -115,3 +115,4 @@
 (declare-fun composeOV ((Array Int Str) (Array Str Val)) (Array Int Val))
 (assert (forall ((o (Array Int Str)) (V (Array Str Val)) (i Int)) (! (= (select (composeOV o V) i) (select V (select o i))) :pattern ((select (composeOV o V) i)))))
 (define-fun sel ((A (Array Int Val)) (i Int)) Val (select A i))
+(define-fun numF ((e Val)) F64 (ite ((_ is WInt) e) (i2f (wint e)) (wfloat e)))
